@@ -13,6 +13,31 @@ use std::rc::Rc;
 
 pub type Log = Rc<RefCell<Vec<(u32, u64, usize)>>>;
 
+thread_local! {
+    /// Set during the second run of every shape: the probes then also take (and log) one 32-bit draw.
+    static DRAW32: std::cell::Cell<bool> = const { std::cell::Cell::new(false) };
+}
+
+/// A generator whose 32-bit output is NOT the low half of its 64-bit output (it is the high half) and whose byte
+/// filling is its own: "the same random generator" (C20) means the caller's generator itself, whatever its type -
+/// a wrapper that re-derives one kind of draw from another is only transparent for some generators.
+pub struct OddRng(pub Xoroshiro128StarStar);
+impl RngCore for OddRng {
+    fn next_u32(&mut self) -> u32 { (self.0.next_u64() >> 32) as u32 }
+    fn next_u64(&mut self) -> u64 { self.0.next_u64() }
+    fn fill_bytes(&mut self, dest: &mut [u8]) { for b in dest.iter_mut() { *b = (self.0.next_u64() >> 56) as u8; } }
+    fn try_fill_bytes(&mut self, dest: &mut [u8]) -> Result<(), rand::Error> { self.fill_bytes(dest); Ok(()) }
+}
+
+fn draw32<R: RngCore>(tag: u32, log: &Log, n: usize, rng: &mut R) {
+    if DRAW32.with(|c| c.get()) {
+        let w = rng.next_u32();
+        let mut b = [0u8; 3];
+        rng.fill_bytes(&mut b);
+        log.borrow_mut().push((tag, ((w as u64) << 24) | ((b[0] as u64) << 16) | ((b[1] as u64) << 8) | b[2] as u64, n));
+    }
+}
+
 macro_rules! probe {
     ($name:ident, $mname:ident, $draws:expr) => {
         pub struct $name { tag: u32, log: Log }
@@ -25,6 +50,7 @@ macro_rules! probe {
                     let d = rng.next_u64();
                     self.log.borrow_mut().push((self.tag, d, env.get_orders().len()));
                 }
+                draw32(self.tag, &self.log, env.get_orders().len(), rng);
                 env.place_order(Side::Bid, 1, self.tag, Some(10)).unwrap();
             }
         }
@@ -38,6 +64,7 @@ macro_rules! probe {
                     let d = rng.next_u64();
                     self.log.borrow_mut().push((self.tag, d, env.get_orders(0).len()));
                 }
+                draw32(self.tag, &self.log, env.get_orders(0).len(), rng);
                 env.place_order(0, Side::Bid, 1, self.tag, Some(10)).unwrap();
             }
         }
@@ -54,6 +81,7 @@ impl Probe3 {
     pub fn update<R: RngCore>(&mut self, env: &mut Env, rng: &mut R) {
         let d = rng.next_u64();
         self.log.borrow_mut().push((self.tag, d, env.get_orders().len()));
+        draw32(self.tag, &self.log, env.get_orders().len(), rng);
         env.place_order(Side::Bid, 1, self.tag, Some(10)).unwrap();
     }
 }
@@ -69,6 +97,7 @@ impl MProbe3 {
     pub fn update<R: RngCore, const M: usize, const N: usize>(&mut self, env: &mut MarketEnv<M, N>, rng: &mut R) {
         let d = rng.next_u64();
         self.log.borrow_mut().push((self.tag, d, env.get_orders(0).len()));
+        draw32(self.tag, &self.log, env.get_orders(0).len(), rng);
         env.place_order(0, Side::Bid, 1, self.tag, Some(10)).unwrap();
     }
 }
@@ -92,7 +121,26 @@ pub fn run_agent_shape<S>(
     build: impl Fn(&Log, &mut u32) -> S,
     derived: impl Fn(&mut S, &mut Env, &mut Xoroshiro128StarStar),
     hand: impl Fn(&mut S, &mut Env, &mut Xoroshiro128StarStar),
+    derived2: impl Fn(&mut S, &mut Env, &mut OddRng),
+    hand2: impl Fn(&mut S, &mut Env, &mut OddRng),
 ) -> String {
+    let run2 = |f: &dyn Fn(&mut S, &mut Env, &mut OddRng)| -> String {
+        DRAW32.with(|c| c.set(true));
+        let r = std::panic::catch_unwind(std::panic::AssertUnwindSafe(|| {
+            let log: Log = Rc::new(RefCell::new(Vec::new()));
+            let mut next = 0u32;
+            let mut s = build(&log, &mut next);
+            let mut env: Env = Env::new(0, 1, 100, true);
+            let mut rng = OddRng(Xoroshiro128StarStar::seed_from_u64(seed));
+            for _ in 0..STEPS {
+                f(&mut s, &mut env, &mut rng);
+                env.step(&mut rng);
+            }
+            format!("{:016x}/{}/{}", crate::sim::fnv64(&log_s(&log)), rng.next_u64(), env.get_orders().len())
+        }));
+        DRAW32.with(|c| c.set(false));
+        r.unwrap_or_else(|_| "PANIC".into())
+    };
     let run = |f: &dyn Fn(&mut S, &mut Env, &mut Xoroshiro128StarStar)| -> String {
         let r = std::panic::catch_unwind(std::panic::AssertUnwindSafe(|| {
             let log: Log = Rc::new(RefCell::new(Vec::new()));
@@ -108,7 +156,7 @@ pub fn run_agent_shape<S>(
         }));
         r.unwrap_or_else(|_| "PANIC".into())
     };
-    format!("S {} macro=AgentSet style={} seed={} steps={} tree=[{}] derived={} hand={}", name, style, seed, STEPS, tree.replace(' ', "_"), run(&derived), run(&hand))
+    format!("S {} macro=AgentSet style={} seed={} steps={} tree=[{}] derived={} hand={} derived2={} hand2={}", name, style, seed, STEPS, tree.replace(' ', "_"), run(&derived), run(&hand), run2(&derived2), run2(&hand2))
 }
 
 pub fn run_market_shape<S>(
@@ -116,7 +164,26 @@ pub fn run_market_shape<S>(
     build: impl Fn(&Log, &mut u32) -> S,
     derived: impl Fn(&mut S, &mut MarketEnv<2, 3>, &mut Xoroshiro128StarStar),
     hand: impl Fn(&mut S, &mut MarketEnv<2, 3>, &mut Xoroshiro128StarStar),
+    derived2: impl Fn(&mut S, &mut MarketEnv<2, 3>, &mut OddRng),
+    hand2: impl Fn(&mut S, &mut MarketEnv<2, 3>, &mut OddRng),
 ) -> String {
+    let run2 = |f: &dyn Fn(&mut S, &mut MarketEnv<2, 3>, &mut OddRng)| -> String {
+        DRAW32.with(|c| c.set(true));
+        let r = std::panic::catch_unwind(std::panic::AssertUnwindSafe(|| {
+            let log: Log = Rc::new(RefCell::new(Vec::new()));
+            let mut next = 0u32;
+            let mut s = build(&log, &mut next);
+            let mut env: MarketEnv<2, 3> = MarketEnv::new(0, [1, 1], 100, true);
+            let mut rng = OddRng(Xoroshiro128StarStar::seed_from_u64(seed));
+            for _ in 0..STEPS {
+                f(&mut s, &mut env, &mut rng);
+                env.step(&mut rng);
+            }
+            format!("{:016x}/{}/{}", crate::sim::fnv64(&log_s(&log)), rng.next_u64(), env.get_orders(0).len())
+        }));
+        DRAW32.with(|c| c.set(false));
+        r.unwrap_or_else(|_| "PANIC".into())
+    };
     let run = |f: &dyn Fn(&mut S, &mut MarketEnv<2, 3>, &mut Xoroshiro128StarStar)| -> String {
         let r = std::panic::catch_unwind(std::panic::AssertUnwindSafe(|| {
             let log: Log = Rc::new(RefCell::new(Vec::new()));
@@ -132,5 +199,5 @@ pub fn run_market_shape<S>(
         }));
         r.unwrap_or_else(|_| "PANIC".into())
     };
-    format!("S {} macro=MarketAgentSet style={} seed={} steps={} tree=[{}] derived={} hand={}", name, style, seed, STEPS, tree.replace(' ', "_"), run(&derived), run(&hand))
+    format!("S {} macro=MarketAgentSet style={} seed={} steps={} tree=[{}] derived={} hand={} derived2={} hand2={}", name, style, seed, STEPS, tree.replace(' ', "_"), run(&derived), run(&hand), run2(&derived2), run2(&hand2))
 }
